@@ -363,7 +363,13 @@ pub fn c02_cases(rng: &mut Rng, quick: bool) -> Vec<String> {
                         }
                         // pull: forget every fetched delegate locally
                         let rm: Vec<String> = if clone { vec![] } else { (lo..nd).map(|i| format!("L.rmns.{i}")).collect() };
-                        boundary.push(c02_case(nd, t, local_delegate, clone, &states, &[], false, &rm));
+                        let case = c02_case(nd, t, local_delegate, clone, &states, &[], false, &rm);
+                        // thorough: the small clones are also run one level up, through two real nodes (the
+                        // node's own key is never a delegate there)
+                        if !quick && clone && !local_delegate && nd <= 2 {
+                            boundary.push(format!("{};S.worker", case.replace("ops=-", "ops=")).replace("ops=;", "ops="));
+                        }
+                        boundary.push(case);
                     }
                 }
             }
